@@ -31,9 +31,11 @@ def sanitizer_reports(stderr: str) -> List[str]:
 
 
 def make_program(prop: str, seed: int, stream: int, scratch: str,
-                 want_mc: Optional[bool] = None, small: bool = False):
+                 want_mc: Optional[bool] = None, small: bool = False,
+                 mc_decoys: str = 'random'):
     rng = random.Random(f'{prop}:{seed}:{stream}')
-    gen, ent, enc, info = cfggen.gen_shell_case(rng, want_multiclient=want_mc, small=small)
+    gen, ent, enc, info = cfggen.gen_shell_case(rng, want_multiclient=want_mc, small=small,
+                                                mc_decoys=mc_decoys)
     work = os.path.join(scratch, f'{prop.lower()}_{stream}')
     prog = cxxlab.ShellProgram(gen, ent, enc, info, work)
     case = {'seed': seed, 'stream': stream, 'cfg': enc, 'component': info['fqn'],
